@@ -1652,6 +1652,12 @@ def packSpecialData(
         return data, attrs
 
     if any(isinstance(d, (tuple, list, np.ndarray)) for d in data):
+        if len(nones) == 0:
+            # None inside the array values: the reader has no way to undo the replacement
+            raise TypeError(
+                "Cannot write {} to the database: arrays containing None are not "
+                "supported.".format(paramName)
+            )
         data = replaceNonesWithNonsense(data, paramName, nones)
         return data, attrs
 
